@@ -33,6 +33,11 @@ theorem wrapFieldB_complete (f : FieldD) (w : PType) (h : WrapField f w) : wrapF
   obtain ⟨c, hc⟩ := h.kind
   simp [h.ty, h.wr, h.wty, h.num, h.rep, hc, isUserKind]
 
+theorem wrapsFieldB_complete (f : FieldD) (w : PType) (h : WrapsField f w) : wrapsFieldB f w = true := by
+  unfold wrapsFieldB
+  obtain ⟨c, hc⟩ := h.kind
+  simp [h.ty, h.wr, h.wty, h.num, h.rep, h.opt, h.grp, hc, isUserKind]
+
 theorem mapFieldSB_complete (f : FieldD) (h : MapFieldS f) : mapFieldSB f = true := by
   unfold mapFieldSB
   simp [h.ty, mapKeyTypeB_eq, h.kty, h.vty, h.num, h.rep, h.opt, h.grp, h.nw]
@@ -275,6 +280,9 @@ theorem slotOkB_complete (S : Schema) (f : FieldD) : ∀ (v : Val), SlotOk S f v
       simp [hf.kind, subFieldB_complete f c hf, hr, msgsOkB_complete S c xs hm]
     | tss _ _ hf hv => simp [timesFieldB_complete f false hf, timeValOk_all false xs hv]
     | durs _ _ hf hv => simp [timesFieldB_complete f true hf, timeValOk_all true xs hv]
+    | wraps _ w _ hf hv =>
+      have hall : xs.all (scalarOk w) = true := by simpa [List.all_eq_true] using hv
+      simp [hf.wr, wrapsFieldB_complete f w hf, hall]
   | .ts us, h => by
     rw [slotOkB]
     cases h with
@@ -334,6 +342,15 @@ instance (S : Schema) (m : Val) : Decidable (MsgOk S m) := decidable_of_iff _ (m
 /-- `MsgOk` itself can now be evaluated on closed terms -/
 example : MsgOk OkEx.SEx OkEx.mEx := by decide
 example : ¬ MsgOk OkEx.SEx (.msg 0 [.ph, .none, .ph, .ph, .ph, .ph] false [] [some 2]) := by decide
+
+/-- repeated wrapper fields: `M(a=[5, 0, -1], s=["", "x"], f=[-0.0, 1.5])` is in the domain, so
+    `C01.roundtrip_equal` applies to it; `M(a=[None, 3])` (which does not round-trip,
+    `C01.none_item_not_roundtrip`) is not -/
+example : MsgOk C01.SR C01.mR := by decide
+example : ¬ MsgOk C01.SR C01.mN := by decide
+example : ∃ m', parse C01.SR 0 C01.bsR = .ok m' ∧ msgEq C01.SR C01.mR m' = true ∧ msgEq C01.SR m' C01.mR = true
+    ∧ dumpVal C01.SR m' = .ok C01.bsR :=
+  C01.roundtrip_equal C01.SR 0 _ _ _ _ (by decide) C01.bsR (by decide) (by decide)
 
 end Bp
 
